@@ -708,9 +708,8 @@ theorem curOk_next (d : Nat → Nat → Int) (split : List Nat → Clusters) (po
     have h1 := count_children d split cur hch x
     have h2 : ((cur.flatMap (nextOf split)).flatMap (·.2)) = ptsOf (cur.flatMap (childrenOf split)) := by
       unfold ptsOf
-      rw [List.flatMap_def, List.flatMap_def, ← map_snd_children]
-      rw [List.map_map]
-      rfl
+      rw [List.flatMap_def (l := cur.flatMap (nextOf split)), List.flatMap_def (l := cur.flatMap (childrenOf split)),
+        map_snd_children]
     rw [h2, h1, C.count]
   · intro e' he'
     rw [List.mem_flatMap] at he'
@@ -719,7 +718,7 @@ theorem curOk_next (d : Nat → Nat → Int) (split : List Nat → Clusters) (po
     split at hin
     · split at hin
       · simp at hin
-      · simp only [List.mem_singleton] at hin; subst hin; exact C.entry e he
+      · simp only [List.mem_singleton] at hin; rw [hin]; exact C.entry e he
     · rename_i hs
       rw [List.mem_map] at hin
       obtain ⟨kv, hkv, rfl⟩ := hin
@@ -780,8 +779,7 @@ theorem childOk_refines (d : Nat → Nat → Int) : ∀ (parents : List (List Na
   intro parents parts h
   induction h with
   | nil => intro kv hkv; simp at hkv
-  | cons hab _ ih =>
-    rename_i par part ps pts
+  | @cons par part ps pts hab htail ih =>
     intro kv hkv
     simp only [List.flatten_cons, List.mem_append] at hkv
     rcases hkv with hkv | hkv
@@ -792,5 +790,35 @@ theorem childOk_refines (d : Nat → Nat → Int) : ∀ (parents : List (List Na
       exact List.count_pos_iff.mp this
     · obtain ⟨p', hp', hin⟩ := ih kv hkv
       exact ⟨p', List.mem_cons_of_mem _ hp', hin⟩
+
+end C17.KMed
+
+namespace C17.KMed
+
+/-- the split contract is what the flat theorems give for `create_kmedoids` on a proper distance table,
+    whatever start medoids (taken from the data) and hash-map orders occur -/
+theorem splitOk_of_createKMedoids (d : Nat → Nat → Int) (hrefl : ∀ x, d x x = 0) (hpos : ∀ x y, x ≠ y → 0 < d x y)
+    (split : List Nat → Clusters) (init : List Nat → List Nat) (ord : Nat → List Nat → List Nat)
+    (hord : ∀ i l, (ord i l).Perm l) (hinit : ∀ data, ∀ m ∈ init data, m ∈ data)
+    (hsplit : ∀ data, createKMedoids d data (some (init data)) ord = some (split data)) : SplitOk d split := by
+  constructor
+  intro data _ _
+  have h := hsplit data
+  refine ⟨(result_is_partition d data ord hord (init data) (hinit data) (split data) h).1, ?_, ?_⟩
+  · exact key_in_own_cluster d data ord hord (init data) (hinit data) (split data) h (fun x _ => hrefl x)
+      (fun x _ y _ hxy => hpos x y hxy)
+  · exact nearest_own_medoid d data ord hord (init data) (hinit data) (split data) h
+
+/-- non-vacuity: eleven points on a line at 0..3 | 10..13 | 30..32, splits by the model of `create_kmedoids`
+    started from the first two points of the data: two tiers, a third would have no cluster above two points -/
+def pos11 : List Int := [0, 1, 2, 3, 10, 11, 12, 13, 30, 31, 32]
+def exD11 (a b : Nat) : Int := ((pos11.getD a 0) - (pos11.getD b 0)).natAbs
+def exSplit (data : List Nat) : Clusters := (createKMedoids exD11 data (some (data.take 2)) (fun _ l => l)).getD []
+
+example : createHier exSplit (List.range 11) 4 =
+    [[(1, [0, 1, 2, 3]), (7, [4, 5, 6, 7, 8, 9, 10])],
+     [(0, [0, 1]), (2, [2, 3]), (5, [4, 5, 6, 7]), (9, [8, 9, 10])]] := by decide
+
+example : specHier exD11 (List.range 11) [List.range 11] (createHier exSplit (List.range 11) 4) = true := by decide
 
 end C17.KMed
